@@ -3,6 +3,7 @@
 package c01
 
 import (
+	"encoding/json"
 	"fmt"
 	"os"
 
@@ -103,4 +104,44 @@ func Run(r *ev.Run) {
 		}
 		drive.Against(r, j, dyn[i].Root, drive.MkPool(gen.Vals(dyn[i].Insts...)), drive.Opt{Draft: ref.D2020, BaseURI: dyn[i].Base, Prefix: "dyn "})
 	})
+	signedZeros(r)
+}
+
+// signedZeros: encoding/json decodes the texts -0, -0.0 and -0e3 to the float64 negative zero,
+// which is the number 0 for every keyword (equal to 0 under const / enum / uniqueItems, a
+// multiple of everything, not below a minimum of 0).
+func signedZeros(r *ev.Run) {
+	schemas := []string{`{"uniqueItems":true}`, `{"items":{"uniqueItems":true}}`, `{"const":0}`, `{"enum":[[0]]}`, `{"const":-0.0}`, `{"items":{"const":{"a":0}}}`, `{"minimum":0}`, `{"exclusiveMaximum":0}`, `{"multipleOf":2}`, `{"type":"integer"}`, `{"contains":{"const":0},"minContains":2}`, `{"properties":{"a":{"enum":[0,1]}},"additionalProperties":false}`}
+	texts := []string{`-0`, `-0.0`, `-0e3`, `[0,-0]`, `[-0.0,0]`, `[[0],[-0]]`, `[{"a":0},{"a":-0.0}]`, `{"a":-0}`, `[-0]`, `[0,1,-0e0]`}
+	n := 0
+	for _, st := range schemas {
+		rs, stage, err := drive.Compile(st, nil)
+		if stage != "" {
+			r.Fail(st, map[string]any{"class": stage, "error": err.Error()})
+			continue
+		}
+		u, uerr := ref.NewUniverse(st, "", nil, nil)
+		if uerr != nil || u.Closure() != nil {
+			continue
+		}
+		for _, t := range texts {
+			var x any
+			if err := json.Unmarshal([]byte(t), &x); err != nil { // the canonical decoding keeps the sign of the zero
+				continue
+			}
+			key := "signed zero: " + st + " ⊢ " + t
+			if r.OnlyKey != "" && r.OnlyKey != key {
+				continue
+			}
+			want := u.Validate(ref.MustParse(t))
+			got, p := drive.Verdict(rs, x)
+			n++
+			if p != "" || (!want.Undefined && got != want.Valid) {
+				r.Fail(key, map[string]any{"class": "verdict", "impl_valid": got, "spec_valid": want.Valid, "panic": p})
+			}
+		}
+	}
+	r.Eval(n)
+	r.NontrivialN(n)
+	r.Set("signed_zero_cases", n)
 }
